@@ -405,6 +405,167 @@ pub fn run_sync(case: &SyncCase) -> (Vec<(String, String)>, SyncInfo) {
     (v, info)
 }
 
+// ---------------------------------------------------------------------------
+// (c) a lite (SPV) node syncs through the ghost chain: the chain summary it receives must let it
+//     learn every block of the peer's chain under the peer's real hash - indexed as a ghost block
+//     or requested by exactly (hash, id)
+// ---------------------------------------------------------------------------
+
+#[derive(Debug, Clone, Serialize, Deserialize, PartialEq, Eq, Hash)]
+pub struct LiteCase {
+    /// peer chain length beyond genesis
+    pub n: u8,
+    /// bit i set: block i+1 (beyond genesis) carries a payment to the lite node's key
+    pub pay_mask: u32,
+    /// the peer grows by this many blocks after the first sync, then the lite node connects again
+    pub grow: u8,
+    pub pay_mask2: u8,
+}
+
+pub fn run_lite(case: &LiteCase) -> (Vec<(String, String)>, usize, usize) {
+    let mut v: Vec<(String, String)> = vec![];
+    let ncfg = NodeCfg { gp: 100, heartbeat: 100, social_stake: 0, loading_completed: false, prune: 8 };
+    let n = (case.n as usize).clamp(1, 24);
+    let grow = (case.grow as usize).min(6);
+    const LITE: u8 = 3;
+    let mut blocks = vec![];
+    for i in 0..n + grow {
+        let pays = if i < n { (case.pay_mask >> (i % 32)) & 1 == 1 } else { (case.pay_mask2 >> ((i - n) % 8)) & 1 == 1 };
+        let mut b = bspec(i, None, 250);
+        if pays {
+            b.txs = vec![TxSpec { payer: 1, payee: LITE, amount_sel: 900, fee: 100, routers: vec![], with_path: false, max_inputs: 1, nft: false }];
+        } else if i % 3 == 1 {
+            b.txs = vec![TxSpec { payer: 0, payee: 1, amount_sel: 700, fee: 50, routers: vec![], with_path: false, max_inputs: 1, nft: false }];
+        }
+        blocks.push(b);
+    }
+    let spec = HistSpec { ncfg, treasury: 0, issuance: vec![(0, 5_000_000), (1, 6_000_000)], blocks, gt_policy: true };
+    let built = block_on(build_history(&spec));
+    if built.blocks.len() != 1 + n + grow {
+        return (v, 0, 0);
+    }
+    let clock = Arc::new(AtomicU64::new(5_000_000));
+    let mut lite = NetNode::new_with(LITE, ncfg, clock.clone(), 1, 10, MemIO::new(), true);
+    let mut full = NetNode::new(2, ncfg, clock.clone(), 0, 10, MemIO::new());
+    let _ = lite.init();
+    let _ = full.init();
+    for b in &built.blocks[..=n] {
+        full.add_direct(b.clone());
+    }
+    let mut ghosts = 0usize;
+    let mut fetched = 0usize;
+    let mut known_upto = 0usize; // blocks of the peer's chain the lite node has been told about
+    for round in 0..(if grow > 0 { 2 } else { 1 }) {
+        if round == 1 {
+            let _ = lite.net_event(NetworkEvent::PeerDisconnected { peer_index: 1, disconnect_type: saito_core::core::io::network::PeerDisconnectType::ExternalDisconnect });
+            let _ = full.net_event(NetworkEvent::PeerDisconnected { peer_index: 10, disconnect_type: saito_core::core::io::network::PeerDisconnectType::ExternalDisconnect });
+            let _ = lite.pump();
+            let _ = full.pump();
+            lite.take_outbox();
+            full.take_outbox();
+            lite.take_fetches();
+            for b in &built.blocks[n + 1..] {
+                full.add_direct(b.clone());
+            }
+            full.take_outbox();
+            full.io.st.broadcast.lock().unwrap().clear();
+        }
+        let upto = if round == 0 { n } else { n + grow };
+        if full.tip().1 != built.blocks[upto].hash {
+            return (v, 0, 0);
+        }
+        let mut panicked: Option<(String, String)> = None;
+        macro_rules! chk {
+            ($e:expr) => {
+                if let HandlerOutcome::Panicked(s, m) = $e {
+                    panicked = Some((s, m));
+                }
+            };
+        }
+        chk!(lite.net_event(NetworkEvent::PeerConnectionResult { result: Ok((1, None)) }));
+        chk!(full.net_event(NetworkEvent::PeerConnectionResult { result: Ok((10, None)) }));
+        let mut requested: BTreeSet<(SaitoHash, u64)> = BTreeSet::new();
+        let mut idle = 0;
+        for _step in 0..400 {
+            if panicked.is_some() {
+                break;
+            }
+            let mut moved = false;
+            for (_i, buf) in lite.take_outbox() {
+                moved = true;
+                chk!(full.net_event(NetworkEvent::IncomingNetworkMessage { peer_index: 10, buffer: buf }));
+            }
+            chk!(full.pump());
+            for (_i, buf) in full.take_outbox() {
+                moved = true;
+                chk!(lite.net_event(NetworkEvent::IncomingNetworkMessage { peer_index: 1, buffer: buf }));
+            }
+            chk!(lite.pump());
+            full.io.st.broadcast.lock().unwrap().clear();
+            lite.io.st.broadcast.lock().unwrap().clear();
+            full.take_fetches();
+            for (h, peer, _u, id) in lite.take_fetches() {
+                moved = true;
+                requested.insert((h, id));
+                // the peer serves the lite form of the block for the lite node's key
+                match built.blocks.iter().find(|b| b.hash == h && b.id == id) {
+                    Some(b) => {
+                        let lb = b.generate_lite_block(vec![key(LITE).0]);
+                        chk!(lite.net_event(NetworkEvent::BlockFetched { block_hash: h, block_id: id, peer_index: peer, buffer: lb.serialize_for_net(saito_core::core::consensus::block::BlockType::Full) }));
+                    }
+                    None => chk!(lite.net_event(NetworkEvent::BlockFetchFailed { block_hash: h, block_id: id, peer_index: peer })),
+                }
+            }
+            if !moved {
+                idle += 1;
+                if idle > 4 {
+                    break;
+                }
+                clock.fetch_add(2_500, Ordering::SeqCst);
+                chk!(lite.routing_timer(2_500));
+                chk!(full.routing_timer(2_500));
+            } else {
+                idle = 0;
+            }
+        }
+        if let Some((site, msg)) = panicked {
+            v.push((format!("C15|lite_sync_panic|site={site}"), format!("a handler panicked at {site} during the ghost-chain sync of a lite node: {msg}")));
+            return (v, ghosts, fetched);
+        }
+        // every block of the peer's chain above what the lite node already knew: indexed under the
+        // peer's hash, or requested by exactly (hash, id)
+        let chain = block_on(lite.chain_lock.read());
+        for b in &built.blocks[known_upto + 1..=upto] {
+            let indexed = chain.blocks.contains_key(&b.hash);
+            let asked = requested.contains(&(b.hash, b.id));
+            if indexed {
+                ghosts += 1;
+            }
+            if asked {
+                fetched += 1;
+            }
+            if !indexed && !asked {
+                v.push((
+                    format!("C15|lite_node_misses_block|round={}", round + 1),
+                    format!("after the ghost-chain exchange (peer chain of {} blocks beyond genesis, payments to the lite key in mask {:#x}) the lite node neither indexed block {} under the peer's hash nor requested it by (hash, id); it requested {} blocks", upto, case.pay_mask, b.id, requested.len()),
+                ));
+                break;
+            }
+        }
+        // nothing it asks for may be unknown to the peer
+        let real: BTreeSet<(SaitoHash, u64)> = built.blocks.iter().map(|b| (b.hash, b.id)).collect();
+        if let Some(bad) = requested.iter().find(|r| !real.contains(r)) {
+            v.push((format!("C15|lite_node_requests_unknown_block|round={}", round + 1), format!("the lite node requested block id {} under a hash the peer's chain does not contain", bad.1)));
+        }
+        drop(chain);
+        if !v.is_empty() {
+            break;
+        }
+        known_upto = upto;
+    }
+    (v, ghosts, fetched)
+}
+
 fn eval_sync(c: &mut Ctx, case: &SyncCase, counting: bool) -> Vec<(String, String)> {
     let (v, info) = run_sync(case);
     if counting {
@@ -432,7 +593,7 @@ fn eval_sync(c: &mut Ctx, case: &SyncCase, counting: bool) -> Vec<(String, Strin
 }
 
 pub fn run(ctx: &mut Ctx) {
-    ctx.rule = "(a) synthetic block rings up to 2e5 high (below/above every fork-id checkpoint) for two chains sharing a prefix of generated length; hashes constructed so that distinct blocks never agree on a whole checkpoint byte pair (the by-design 2^-16 fingerprint collision is outside the domain) while single bytes agree often; oracle: generate_last_shared_ancestor(peer tip, peer fork id) <= true fork height, peer ahead and behind. (b) two nodes built from the real routing/verification/consensus threads: every (prefix p, own suffix a, peer suffix b > a) with p,a,b <= N enumerated under in-order scheduling plus generated (p,a,b) up to 12/6/14 under generated schedules (which message, which of up to 4 pending fetches - any completion order -, which node's internal event next); block fetches are served from the peer's chain; a third of the generated cases (and 36 enumerated ones) have a second round: after convergence the connection drops, the node adds a2 blocks of its own and the peer b2 > a2 blocks on the common tip, and they connect again; oracle at quiescence (after timer ticks) of each round: the syncing node is on the peer's tip, the peer did not move, every block the node lacked was requested. non-trivial: (b) the node must reorganise (a >= 1) and at least one fetch completed out of order; (a) counted by distinct case".into();
+    ctx.rule = "(a) synthetic block rings up to 2e5 high (below/above every fork-id checkpoint) for two chains sharing a prefix of generated length; hashes constructed so that distinct blocks never agree on a whole checkpoint byte pair (the by-design 2^-16 fingerprint collision is outside the domain) while single bytes agree often; oracle: generate_last_shared_ancestor(peer tip, peer fork id) <= true fork height, peer ahead and behind. (b) two nodes built from the real routing/verification/consensus threads: every (prefix p, own suffix a, peer suffix b > a) with p,a,b <= N enumerated under in-order scheduling plus generated (p,a,b) up to 12/6/14 under generated schedules (which message, which of up to 4 pending fetches - any completion order -, which node's internal event next); block fetches are served from the peer's chain; a third of the generated cases (and 36 enumerated ones) have a second round: after convergence the connection drops, the node adds a2 blocks of its own and the peer b2 > a2 blocks on the common tip, and they connect again; oracle at quiescence (after timer ticks) of each round: the syncing node is on the peer's tip, the peer did not move, every block the node lacked was requested. (c) a lite (SPV) node with an empty chain connects to a full peer (chains of 1..24 blocks, payments to the lite key at every mask of positions for small chains, generated beyond; optionally a second connection after the peer grew): after the handshake / ghost-chain request / ghost chain exchange every block of the peer's chain must be indexed by the lite node under the peer's real hash or requested by exactly (hash, id), and nothing it requests may be unknown to the peer. non-trivial: (b) the node must reorganise (a >= 1) and at least one fetch completed out of order; (a) counted by distinct case".into();
     // (a)
     let n = ctx.tier.pick(3_000u32, 40_000);
     let mut r = runner(ctx.seed ^ 0xC15A, 1);
@@ -521,6 +682,38 @@ pub fn run(ctx: &mut Ctx) {
         }
     }
     ctx.extra.insert("directed_sync_schedules".into(), json!(directed));
+    // (c) lite nodes: enumerated small chains x payment masks, generated larger ones
+    let mut lite_cases = 0;
+    for n in 1..=ctx.tier.pick(5u8, 7) {
+        for mask in 0..(1u32 << n) {
+            let case = LiteCase { n, pay_mask: mask, grow: if mask % 3 == 0 { 2 } else { 0 }, pay_mask2: (mask % 4) as u8 };
+            let (viol, g, f) = run_lite(&case);
+            ctx.evals((n as u64) + 1);
+            lite_cases += 1;
+            if g > 0 && f > 0 {
+                ctx.class("lite_sync_with_ghost_blocks_and_fetches");
+            }
+            for (k, w) in viol {
+                ctx.violation(&k, w, json!({"check": "lite_sync", "lite_case": case}));
+            }
+        }
+    }
+    ctx.extra.insert("enumerated_lite_syncs".into(), json!(lite_cases));
+    let lstrat = (1u8..24, any::<u32>(), 0u8..6, any::<u8>()).prop_map(|(n, pay_mask, grow, pay_mask2)| LiteCase { n, pay_mask, grow, pay_mask2 });
+    let lcases = ctx.tier.pick(60u32, 2_000);
+    pbt_run(ctx, "lite_sync", lcases, lstrat, |c, case, counting| {
+        let (v, g, f) = run_lite(case);
+        if counting {
+            c.evals(case.n as u64 + case.grow as u64 + 1);
+            if g > 0 && f > 0 {
+                c.class("lite_sync_with_ghost_blocks_and_fetches");
+            }
+            if case.grow > 0 {
+                c.class("lite_sync_second_round");
+            }
+        }
+        v
+    });
     let strat = (0u8..12, 0u8..6, 1u8..14, prop_oneof![3 => Just(true), 1 => Just(false)], proptest::collection::vec(any::<u16>(), 0..120), prop_oneof![Just(1u8), Just(2u8), Just(4u8), Just(10u8)], prop_oneof![2 => Just((0u8, 0u8)), 1 => (0u8..4, 1u8..6)])
         .prop_map(|(p, a, b, loading_completed, schedule, batch, (a2, b2))| SyncCase { p, a, b: b.max(a + 1), loading_completed, schedule, batch, burst_policy: 0, a2, b2 });
     let cases = ctx.tier.pick(250u32, 8_000);
@@ -528,6 +721,17 @@ pub fn run(ctx: &mut Ctx) {
 }
 
 pub fn replay(ctx: &mut Ctx, v: &serde_json::Value) -> bool {
+    let lc = v.get("lite_case").cloned().or_else(|| if v.get("check").and_then(|c| c.as_str()) == Some("lite_sync") { v.get("case").cloned() } else { None });
+    if let Some(lc) = lc {
+        if let Ok(c) = serde_json::from_value::<LiteCase>(lc) {
+            let (viol, _, _) = run_lite(&c);
+            ctx.evals(c.n as u64 + 1);
+            for (k, w) in viol {
+                ctx.violation(&k, w, json!({"check": "lite_sync", "lite_case": c}));
+            }
+            return true;
+        }
+    }
     let case = v.get("case").cloned().unwrap_or(v.clone());
     if let Ok(c) = serde_json::from_value::<SyncCase>(case.clone()) {
         for (k, w) in eval_sync(ctx, &c, true) {
